@@ -1,5 +1,6 @@
-\* C33, faithful model, schedule search: persisted <= acknowledged since the last reset.  A counterexample is printed as a
-\* CASE line (the schedule) and replayed on the real code through the gates by checks/C33.py.
+\* Negative control (pre-9ae9635 model, JoinSubscriber = FALSE).  TLC MUST refute InvPersistedLeAckedSinceResetE; the schedule it
+\* prints (CASE line) is forced on the real code by checks/C33.py and must NOT be reproducible there any more - if the code
+\* follows it, the late StorePipelineState is back and the check reports it.
 SPECIFICATION Spec
 CONSTANTS
   MaxLogs = 2
